@@ -634,10 +634,12 @@ ExpectedWriteMissing ==
   ELSE V("C03", "stalled", <<Ln.unread>>)
 
 \* a panic of the context is C04's concern whatever caused it; when the packet being handled is one the client owed an
-\* acknowledgement (C08) or a delivery (C07) for, that obligation is broken by the same step
-PanicTags ==
-  <<"C04">> \o (IF netIn # <<>> /\ HandlePkt(S, Head(netIn)).wr # <<>> THEN <<"C08">> ELSE <<>>)
-            \o (IF netIn # <<>> /\ Head(netIn).t = "PUBLISH" /\ Head(netIn).sids # <<>> THEN <<"C07">> ELSE <<>>)
+\* acknowledgement (C08) or a delivery (C07) for, that obligation is broken by the same step (likewise when run() ends
+\* on that packet although nothing ended the connection)
+OwedTags ==
+  (IF netIn # <<>> /\ HandlePkt(S, Head(netIn)).wr # <<>> THEN <<"C08">> ELSE <<>>)
+  \o (IF netIn # <<>> /\ Head(netIn).t = "PUBLISH" /\ Head(netIn).sids # <<>> THEN <<"C07">> ELSE <<>>)
+PanicTags == <<"C04">> \o OwedTags
 
 ClassifyCtxEnd(res) ==
   IF res.r = "panic" THEN V(PanicTags, "panic-in-context", IF "msg" \in DOMAIN res THEN res.msg ELSE "")
@@ -652,7 +654,7 @@ ClassifyCtxEnd(res) ==
        IF retd = <<>> THEN
          (IF res.kind = "InternalError" THEN V("C15", "run-returned-internal-error", <<>>)
           ELSE IF res.kind = "SocketClosed" /\ netEnd = "open" THEN V("C03", "early-end-of-stream", Ln.unread)
-          ELSE V("C13", "unexpected-return", res.kind))
+          ELSE V(<<"C13">> \o OwedTags, "unexpected-return", res.kind))
        ELSE V("C13", "wrong-return", <<retd[1].kind, retd[1].rc, res.kind, res.rc>>)
 
 ClassifyPollOp ==
@@ -663,6 +665,9 @@ ClassifyPollOp ==
          ELSE IF want.kind = "ContextExited" THEN V(<<"C14", "C04">>, "panic-instead-of-context-exited", IF "msg" \in DOMAIN got THEN got.msg ELSE "")
          ELSE V("C04", "panic-in-operation", IF "msg" \in DOMAIN got THEN got.msg ELSE ""))
     ELSE IF SameRes(want, got) /\ Ln.woken = 0 THEN V("C16", "progress-without-wakeup", <<"op", Ln.k>>)
+    ELSE IF want.r = "pending" /\ Ln.woken = 0 THEN
+         \* a poll without wake-up must have no effect: here it completed the operation (with whatever result)
+         V(<<"C16">> \o (IF got.kind = "ContextExited" THEN <<"C14">> ELSE <<"C05">>), "completed-by-a-poll-without-wakeup", <<ops[Ln.k].kind, got.r, got.kind>>)
     ELSE IF want.r = "pending" THEN
         (IF got.kind = "ContextExited" THEN V("C14", "context-exited-while-alive", Ln.k)
          ELSE V(WithC15("C05"), "completed-without-own-ack", <<ops[Ln.k].kind, got.r, got.kind>>))
@@ -699,9 +704,13 @@ ClassifyPollSt ==
     ELSE IF want = "pending" /\ got.r = "end" THEN V(WithC15("C07"), "ended-early", Ln.k)
     ELSE IF want = "item" /\ got.r = "item" THEN V(WithC15("C07"), "wrong-item", <<Head(s.buf).tag, got.pk.tag, Head(s.buf).x, got.pk.x>>)
     ELSE IF want = "item" THEN
+           \* (a QoS 2 message that never reaches the application is delivered zero times, not once: C09 as well)
+           \* (and items buffered when the context went away must still be yielded before the stream ends: C14)
+           LET more == (IF g.ncancel > 0 THEN <<"C15">> ELSE <<>>) \o (IF Head(s.buf).qos = 2 THEN <<"C09">> ELSE <<>>)
+                       \o (IF ph = "gone" THEN <<"C14">> ELSE <<>>) IN
            (IF got.r = "pending" /\ StreamProgressUnwoken(Ln.k, l + 1)
-            THEN V(<<"C07", "C16">> \o (IF g.ncancel > 0 THEN <<"C15">> ELSE <<>>), "item-withheld-until-polled-without-wakeup", <<Head(s.buf).tag, got.r>>)
-            ELSE V(WithC15("C07"), "item-missing", <<Head(s.buf).tag, got.r>>))
+            THEN V(<<"C07", "C16">> \o more, "item-withheld-until-polled-without-wakeup", <<Head(s.buf).tag, got.r>>)
+            ELSE V(<<"C07">> \o more, "item-missing", <<Head(s.buf).tag, got.r>>))
     ELSE V(WithC15("C07"), "extra-item", <<got.pk.tag, got.pk.qos>>)
 
 ClassifyQuiescent ==
